@@ -398,7 +398,7 @@ def o4(tier):
     return r
 
 
-SAVE_FNS = (('groups.rs', 'save_group', 'row_to_group'), ('groups.rs', 'save_group_exporter_secret', 'row_to_group_exporter_secret'),
+SAVE_FNS = (('groups.rs', 'save_group', 'row_to_group'), ('groups.rs', 'replace_group_relays', 'row_to_group_relay'), ('groups.rs', 'save_group_exporter_secret', 'row_to_group_exporter_secret'),
             ('messages.rs', 'save_message', 'row_to_message'), ('messages.rs', 'save_processed_message', 'row_to_processed_message'),
             ('welcomes.rs', 'save_welcome', 'row_to_welcome'), ('welcomes.rs', 'save_processed_welcome', 'row_to_processed_welcome'))
 
@@ -451,8 +451,16 @@ def o8(tier):
                     r.fail(f'O8/{fn}/{col}/wrong-field', f'{fn}: column {col} is bound to {record}.{fld} (parameter `{raw}`), the field of another column: the stored record is not the one given')
                     continue
                 if ctype.get(col) not in ('INTEGER', 'INT', 'BIGINT'):
-                    if W.RISKY.search(e) and not e.startswith('match:') and re.search(r'\bas\s+[iu]\d|try_from|unwrap_or\(|\.min\(|\.max\(', e) and fld:
-                        r.notes.append(f'{fn}.{col}: non-integer column with a numeric-looking conversion `{e[:60]}` (not analysed)')
+                    # TEXT / BLOB columns: the value goes through library accessors. Each accessor is a contract: LOSSLESS ones have an inverse the decoder applies
+                    # (as_str / parse, as_bytes / from_slice, as_json / from_json, serde_json::to_string / from_str, ...); LOSSY ones are documented as dropping information.
+                    meths = [m_ for m_ in re.findall(r'\.\s*(\w+)\s*\(', re.sub(r'\.map_err\(.*', '', e)) if m_ not in ('map', 'as_ref', 'clone', 'map_err', 'iter', 'collect', 'cloned', 'copied')]
+                    lossy = [m_ for m_ in meths if m_ in W.LOSSY_ACCESSORS]
+                    unknown = [m_ for m_ in meths if m_ not in W.LOSSLESS_ACCESSORS and m_ not in W.LOSSY_ACCESSORS]
+                    if lossy:
+                        r.fail(f'O8/{fn}/{col}/altered-on-write', f'{fn}: column {col} stores `{e[:80]}`: {lossy[0]}() drops information, so the value read back is not the value saved '
+                               '(e.g. a relay URL whose path ends in "/" comes back as a different URL)')
+                    elif unknown:
+                        raise S.SqlError(f'{fn}.{col}: accessor {unknown[0]}() in `{e[:60]}` has no codec contract (add it to sqlsym/writes.py as lossless or lossy)')
                     continue
                 if e.startswith('match:'):
                     continue                      # enum-to-integer encodings are checked by the state-machine obligations, not here
@@ -510,8 +518,13 @@ def o10(tier):
     from props import memobs
     return memobs.pending_welcomes_listing(tier, 'O10', 'O10')
 
+def o11(tier):
+    from props import memobs
+    return memobs.save_message_upsert(tier, 'O11', 'O11')
+
+
 def run(tier, seed, only=None):
-    obs = [('O1', o1), ('O2', o2), ('O3', o3), ('O4', o4), ('O5', o5), ('O6', o6), ('O7', o7), ('O8', o8), ('O9', o9), ('O10', o10)]
+    obs = [('O1', o1), ('O2', o2), ('O3', o3), ('O4', o4), ('O5', o5), ('O6', o6), ('O7', o7), ('O8', o8), ('O9', o9), ('O10', o10), ('O11', o11)]
     out = []
     for k, f in obs:
         if only and k not in only:
